@@ -1,3 +1,4 @@
+import NitroVerif.Lemmas.OptResult
 import NitroVerif.Model.Opt
 import NitroVerif.Spec.Opt
 import NitroVerif.Lemmas.Opt
@@ -45,5 +46,65 @@ theorem value_verbatim (env : Env) (items : List Item) (o : OptD) (v : Str)
 theorem multi_in_order (env : Env) (items : List Item) (m : MulD) (v : Str) (vs : List Str)
     (h : cliValues m.name items = v :: vs) : interpMul env items m = .ok (v :: vs, true) := by
   simp [interpMul, h]
+
+
+/-- **Any two command lines that spell the same assignment parse alike**: if both have an explanation
+and the explanations agree on the values per option (in order), the occurrence counts per toggle and
+the positionals (in order), `parse` returns the same outcome — whatever the spelling per occurrence
+(`--name v`, `--name=v`, `-s v`, `-s=v`), the bundling of letters or the interleaving of items. -/
+theorem same_assignment_same_outcome (d : Decl) (hn : (allNames d).Nodup) (env : Env)
+    (argv₁ argv₂ : List Str) (a b : List Item)
+    (h₁ : explain d argv₁ = some a) (h₂ : explain d argv₂ = some b)
+    (hv : ∀ n, cliValues n a = cliValues n b)
+    (hp : ∀ t ∈ d.togs, posCount t a = posCount t b ∧ negCount t a = negCount t b)
+    (hpos : positionalsOf a = positionalsOf b) : parse d env argv₁ = parse d env argv₂ := by
+  by_cases hc : consistent d = true
+  · rw [parse_of_explain d hn hc env argv₁ a h₁, parse_of_explain d hn hc env argv₂ b h₂]
+    exact interp_depends_only_on_assignment d env a b hv hp hpos
+  · have : consistent d = false := by simpa using hc
+    simp [parse, parseOn, this]
+
+/-- **Values arrive byte for byte**: whatever the string `v` is, if the explanation of the command
+line gives `v` (once) to option `o`, the result reports `v` for `o`, marked provided. -/
+theorem parsed_value_verbatim (d : Decl) (hn : (allNames d).Nodup) (env : Env) (argv : List Str)
+    (items : List Item) (r : Result) (o : OptD) (v : Str) (ho : o ∈ d.opts)
+    (hex : explain d argv = some items) (hcv : cliValues o.name items = [v])
+    (h : parse d env argv = .ok r) : (o.name, some v) ∈ r.opts ∧ o.name ∈ r.provided := by
+  obtain ⟨_, items', hex', hi⟩ := parse_ok_inv d hn env argv r h
+  rw [hex] at hex'
+  simp only [Option.some.injEq] at hex'
+  subst hex'
+  obtain ⟨_, _, hO, _, _⟩ := interp_ok_inv d env items r hi
+  obtain ⟨v', p, hiv, hmem, hprov⟩ := hO o ho
+  rw [value_verbatim env items o v hcv] at hiv
+  simp only [Except.ok.injEq, Prod.mk.injEq] at hiv
+  rw [← hiv.1] at hmem
+  exact ⟨hmem, hprov hiv.2.symm⟩
+
+/-- **Multi-option values keep command-line order.** -/
+theorem parsed_multi_in_order (d : Decl) (hn : (allNames d).Nodup) (env : Env) (argv : List Str)
+    (items : List Item) (r : Result) (m : MulD) (v : Str) (vs : List Str) (hm : m ∈ d.muls)
+    (hex : explain d argv = some items) (hcv : cliValues m.name items = v :: vs)
+    (h : parse d env argv = .ok r) : (m.name, v :: vs) ∈ r.muls := by
+  obtain ⟨_, items', hex', hi⟩ := parse_ok_inv d hn env argv r h
+  rw [hex] at hex'
+  simp only [Option.some.injEq] at hex'
+  subst hex'
+  obtain ⟨_, _, _, hM, _⟩ := interp_ok_inv d env items r hi
+  obtain ⟨vs', p, hiv, hmem, _⟩ := hM m hm
+  rw [multi_in_order env items m v vs hcv] at hiv
+  simp only [Except.ok.injEq, Prod.mk.injEq] at hiv
+  rw [← hiv.1] at hmem
+  exact hmem
+
+/-- **Positionals keep command-line order.** -/
+theorem parsed_positionals (d : Decl) (hn : (allNames d).Nodup) (env : Env) (argv : List Str)
+    (items : List Item) (r : Result) (hex : explain d argv = some items) (h : parse d env argv = .ok r) :
+    r.pos = positionalsOf items := by
+  obtain ⟨_, items', hex', hi⟩ := parse_ok_inv d hn env argv r h
+  rw [hex] at hex'
+  simp only [Option.some.injEq] at hex'
+  subst hex'
+  exact (interp_ok_inv d env items r hi).2.1
 
 end NitroVerif.Props.C02
